@@ -882,6 +882,41 @@ struct VecDriver {
                 ctx.log.kv("rev", reversed);
                 Range r(n, st);
                 typename Vec::iterator ret{};
+                if constexpr (std::is_same_v<T, sim::Tracked>) {
+                    if (op == "insert_range" && !bad && n > 0 && st.k[2] % 3 == 0) {
+                        // the source range is an array of a class DERIVED from the element type (larger than it): like
+                        // std::vector, every element is built from its base sub-object, stepping by sizeof(Derived)
+                        struct Derived : T {
+                            int extra;
+
+                            explicit Derived(int x)
+                                : T(x)
+                                , extra(1000 + x)
+                            {
+                            }
+                        };
+                        ExactBuf<Derived> dbuf(n);
+                        for (size_t i = 0; i < n; ++i) {
+                            new (dbuf.p + i) Derived(r.value(i, st));
+                        }
+                        bool okd = call(a, false, false, [&] {
+                            ret = v.insert(v.cbegin() + static_cast<long>(pos), static_cast<Derived const*>(dbuf.begin()), static_cast<Derived const*>(dbuf.end()));
+                        });
+                        for (size_t i = 0; i < n; ++i) {
+                            dbuf.p[i].~Derived();
+                        }
+                        if (okd) {
+                            for (size_t i = 0; i < n; ++i) {
+                                m.insert(m.begin() + static_cast<long>(pos + i), r.value(i, st));
+                            }
+                            if (ret - v.begin() != static_cast<long>(pos)) {
+                                ctx.violation("C01", "diff:returned-iterator", "insert(range of derived objects) returned offset " + std::to_string(ret - v.begin()));
+                            }
+                            changed(a, sz);
+                        }
+                        return;
+                    }
+                }
                 bool ok = call(a, bad, false, [&] {
                     T* f = reversed ? r.buf.end() : r.buf.begin();
                     T* l = reversed ? r.buf.begin() : r.buf.end();
